@@ -62,7 +62,7 @@ def r08_1(ctx) -> None:
               node=effects[0] if effects else None)
     info = ctx.pkg.cls(SCOPED)
     bases = [b.split("[")[0] for b in info.bases]
-    ctx.check("_BorrowedAsyncIterator" in bases, "R08.1", SCOPED, "bases", "the scoped handle is a borrowed iterator")
+    ctx.check(ctx.pkg.cls_name(c07.BORROW_CLASSES[0]) in bases, "R08.1", SCOPED, "bases", "the scoped handle is a borrowed iterator")
     overridden = sorted(set(info.methods) - {"__repr__", "aclose"})
     ctx.check(not overridden, "R08.1", SCOPED, "methods", "the scoped handle overrides nothing but aclose/__repr__ "
               "(iteration and forwarding are those decided by C07)", witness=str(overridden))
@@ -118,9 +118,9 @@ def r08_2(ctx) -> None:
     for n in cfg.nodes:
         if n.kind == "return" and not n.tag:
             v = ctx.vals.expr(enter, n.info.get("value"), n)
-            ok = bool(v) and all(a[0] == "libinst" and a[1].endswith("_ScopedAsyncIterator") for a in v if a[0] != "none")
+            ok = bool(v) and all(a[0] == "libinst" and a[1] == ctx.pkg.cls(SCOPED).fq for a in v if a[0] != "none")
             ctx.check(ok, "R08.2", enter, n, "the block receives the scoped wrapper", node=n, witness=str(sorted(v)))
-    made = [c for c in own_nodes(enter.node) if isinstance(c, ast.Call) and norm(c.func) == "_ScopedAsyncIterator"]
+    made = [c for c in own_nodes(enter.node) if isinstance(c, ast.Call) and norm(c.func) == ctx.pkg.cls_name(SCOPED)]
     ctx.check(len(made) == 1 and [norm(a) for a in made[0].args] == [f"self.{raw_fields[0]}"] if raw_fields else False,
               "R08.2", enter, made[0] if made else "__aenter__", "the wrapper is built around the context's own iterator")
 
@@ -180,7 +180,7 @@ def r08_4(ctx) -> None:
         v = ctx.vals.expr(u, call, r)
         if any(a[0] == "libinst" and a[1].endswith("NullContext") for a in v):
             kinds["null"] = r
-        elif any(a[0] == "libinst" and a[1].endswith("_ScopedAsyncIteratorContext") for a in v):
+        elif any(a[0] == "libinst" and a[1] == ctx.pkg.cls(CTX).fq for a in v):
             kinds["scoped"] = r
         else:
             ctx.fail("R08.4", u, r, "scoped_iter returns something that is neither the scoping nor the neutral context", node=r)
